@@ -437,7 +437,14 @@ def structure_cases():
         return mk_chunk(0x2005, struct.pack("<HhhBH", 0, 0, 0, 255, 3) + bytes(7)
                         + struct.pack("<HHHIIII", w, h, 32, 0x1fffffff, 0x20000000, 0x40000000, 0x80000000) + bytes(10) + z)
     img_cel = mk_chunk(0x2005, struct.pack("<HhhBH", 0, 0, 0, 255, 0) + bytes(7) + struct.pack("<HH", 1, 1) + bytes([1, 2, 3, 255]))
+    def tm_cel_mask(ids, mask):
+        z = zlib.compress(b"".join(struct.pack("<I", t) for t in ids))
+        return mk_chunk(0x2005, struct.pack("<HhhBH", 0, 0, 0, 255, 3) + bytes(7)
+                        + struct.pack("<HHHIIII", len(ids), 1, 32, mask, 0x20000000, 0x40000000, 0x80000000) + bytes(10) + z)
     cels = [("none", [])] + [("img", [img_cel])]
+    for mask in (0xFFFFFFFF, 0x0000FFFF, 0):
+        for tid in (0xFFFFFFFF, 0xFFFFFFFE, 0x80000001, 0x10000, 1):
+            cels.append((f"tmm{mask:x}i{tid:x}", [tm_cel_mask([tid], mask)]))
     for w in range(3):
         for h in range(3):
             for fill in (0, 1, 2, 0xFFFFFFFF, 0x1FFFFFFF):
@@ -504,8 +511,19 @@ def structure_cases():
     for flags in (1, 5, 3, 7, 0, 4):
         for ext in ([], [7], [8]):
             for user in (0, 1):
-                chunks = ([extf(ext)] if ext else []) + [ts_chunk(0, flags)] + [layer(2 if user else 0, 0)]
-                out.append((f"exttileset/{flags}/{'-'.join(map(str, ext)) or 'none'}/{user}", mk_header(1, 2, 2) + mk_frame(chunks)))
+                for nt in (1, 0):
+                    chunks = ([extf(ext)] if ext else []) + [ts_chunk(0, flags, nt)] + [layer(2 if user else 0, 0)]
+                    out.append((f"exttileset/{flags}/{'-'.join(map(str, ext)) or 'none'}/{user}/{nt}", mk_header(1, 2, 2) + mk_frame(chunks)))
+    # indexed sprites: a tileset whose pixels use an index outside the palette / without any palette,
+    # referenced by a tilemap layer or by nothing
+    for haspal in (0, 1):
+        for idx in (0, 1, 5):
+            for user in (0, 1):
+                zt = zlib.compress(bytes([0, idx]))
+                tsi = mk_chunk(0x2023, struct.pack("<IIIHHh", 0, 2, 2, 1, 1, 1) + bytes(14) + struct.pack("<H", 0) + struct.pack("<I", len(zt)) + zt)
+                chunks = ([mk_chunk(0x2019, struct.pack("<III", 2, 0, 1) + bytes(8) + struct.pack("<HBBBB", 0, 1, 2, 3, 255) * 2)] if haspal else []) \
+                    + [tsi, layer(2 if user else 0, 0)]
+                out.append((f"tsidx/{haspal}/{idx}/{user}", mk_header(1, 2, 2, 8) + mk_frame(chunks)))
     for first, second in ((2, 1), (1, 2), (2, 2), (2, 5), (5, 2)):
         for user in (0, 1):
             for split in (0, 1):
@@ -1054,6 +1072,11 @@ def c15_run(ctx, scale):
     # not, used by a layer or not, a second tileset chunk with the same id before or after): the model
     # decides which of them use the unsupported feature (refusal lemmas of C15), the implementation
     # must refuse exactly those
+    for nt in (2, 11, 12, 13, 40):
+        for bad in (nt - 1, 0, nt // 2):
+            tg = struct.pack("<H", nt) + bytes(8) + b"".join(
+                struct.pack("<HHBH", 0, 0, 3 if i == bad else i % 3, 0) + bytes(6) + bytes(4) + struct.pack("<H", 0) for i in range(nt))
+            files.append((f"feat/anim-dir-unnamed/{nt}/{bad}", mk_header(1, 1, 1) + mk_frame([mk_layer(), mk_chunk(0x2018, tg)])))
     xr = [(c, b) for c, b in structure_cases() if c.split("/")[0] in ("exttileset", "tsdup")]
     xm, xi = run_both(xr, outcome_only=True)
     def xorc(cid, data, impl, model):
@@ -1135,6 +1158,28 @@ def c11_extra(ctx, scale, res, files, model_obs, impl_obs):
     compare_cases(res, leg, leg_model, leg_impl, ["palette", "pal", "format", "celA", "frameimg"], must_load_oracle,
                   what="indexed sprites over a legacy-only palette",
                   spec_backed="C01.oldPalette_roundtrip + C11.indexed_complete + C06.indexed_conversion")
+    # a sparse palette with ids beyond 255 (10..=300) and cels of 31x31 / 32x32 / 64x64 pixels in which
+    # exactly one pixel uses an absent low index whose alias (index + 256) is present
+    import zlib
+    ents = b"".join(struct.pack("<HBBBB", 0, (i * 7) % 256, (i * 3) % 256, i % 256, 255) for i in range(291))
+    palc = mk_chunk(0x2019, struct.pack("<III", 291, 10, 300) + bytes(8) + ents)
+    for side in (31, 32, 64):
+        for absent in (5, 0, 9):
+            for pos in (0, side * side // 2, side * side - 1):
+                px = bytearray([20] * (side * side))
+                px[pos] = absent
+                for ctype, body in ((0, bytes(px)), (2, zlib.compress(bytes(px)))):
+                    celc = mk_chunk(0x2005, struct.pack("<HhhBH", 0, 0, 0, 255, ctype) + bytes(7) + struct.pack("<HH", side, side) + body)
+                    bad.append((f"aliasindex/{side}/{absent}@{pos}/{ctype}", mk_header(1, 4, 4, 8) + mk_frame([palc, mk_layer(), celc])))
+    # tilesets of indexed sprites whose pixels use an index outside the palette / have no palette
+    # (referenced by a layer or not): the model decides which must be refused
+    tsx = [(c, b) for c, b in structure_cases() if c.startswith("tsidx/")]
+    tm_, ti_ = run_both(tsx, outcome_only=True)
+    def tsorc(cid, data, impl, model):
+        if vlib.outcome(model) == "err" and vlib.outcome(impl) != "err":
+            return "an indexed tileset with an index outside the palette (or without a palette) was not refused: " + vlib.outcome_detail(impl)
+        return None
+    compare_cases(res, tsx, tm_, ti_, [], tsorc, what="indexed tilesets vs palette", load_only=True)
     bad += gapbad
     ngap = len(gapbad)
     res.distribution["gap-index cases"] = ngap
@@ -1214,6 +1259,9 @@ def c18_run(ctx, scale):
         transp = rng.choice(["-", str(rng.randrange(256)), str((first + rng.randrange(cnt)) % 256), str((first + rng.randrange(cnt)) % 256)])
         qs = [c + (255,) for c in colours] + [c + (rng.randrange(255),) for c in colours[:2]] + \
              [(rng.randrange(256), rng.randrange(256), rng.randrange(256), 255) for _ in range(3)]
+        # the same colour opaque and then translucent, back to back (call history must not matter)
+        for c in colours[2:5]:
+            qs += [c + (255,), c + (rng.choice([0, 1, 128, 254]),), c + (255,)]
         qb = bytes(x for q in qs for x in q)
         cid = f"map{k}"
         reqs.append(f"UTIL {cid} mapper {f.hex()} {failure} {transp} {qb.hex()}")
@@ -1398,6 +1446,41 @@ def c13_run(ctx, scale):
         files.append((f"whole/{cid}", b[:end]))
     ncuts += len(files)
     flush(files)
+    # AsepriteFile::read_file (the path-based entry point) on truncated files: files with raw cels,
+    # where a zero-filled tail would still parse
+    freqs, fmeta = [], {}
+    fbase = [(c, b) for c, b in base if len(b) < 1500][:25] + [(c, b) for c, b in vlib.verif_corpus_wf() if "cel_before_layer" in c or "ends_with" in c or "tiny_chunks" in c]
+    for cid, b in fbase:
+        end = end_of_last_frame(b)
+        if end is None or end > len(b):
+            continue
+        cuts = set(range(max(0, end - 45), end)) | set(rng.randrange(end) for _ in range(12)) | {128, 132, 134, 144}
+        for k in sorted(c for c in cuts if 0 <= c < end):
+            rid = f"filecut/{cid}@{k}"
+            freqs.append(f"SCHED {rid} {b[:k].hex() or '-'} file")
+            fmeta[rid] = b[:k]
+    fo, _ = vlib.run_impl(freqs)
+    for rid, data in fmeta.items():
+        res.evaluations += 1
+        res.compared += 1
+        o = fo.get(rid) or ["missing"]
+        if not o[0].startswith("load err"):
+            res.oracle_failures.append({"id": rid, "input_hex": data.hex(), "call": "AsepriteFile::read_file(path)",
+                                        "what": "a truncated file did not fail to load through read_file: " + o[0][:100]})
+    # the big corpus files: they load, and cuts near their end do not
+    bigf = [(c, b) for c, b in vlib.verif_corpus_wf(include_big=True) if len(b) >= 20000]
+    bcases = []
+    for cid, b in bigf:
+        end = end_of_last_frame(b)
+        if end is None or end > len(b):
+            continue
+        bcases.append((f"whole/{cid}", b[:end]))
+        for k in sorted(set([end - 1, end - 7, end - 30, max(0, end - 200)] + [rng.randrange(end) for _ in range(4)])):
+            if 0 <= k < end:
+                bcases.append((f"cut/{cid}@{k}", b[:k]))
+    ncuts += len(bcases)
+    flush(bcases)
+    res.distribution["read_file cuts"] = len(freqs)
     res.distribution["files"] = len(base)
     res.distribution["cuts"] = ncuts - len(base)
     return res
@@ -1593,6 +1676,21 @@ def hostile_memory_inputs(ctx, scale):
         out.append((f"bomb-large-decl/{dw}x{dh}", mk_header(1, 4, 4) + mk_frame([mk_layer(), celb])))
         tsb = mk_chunk(0x2023, struct.pack("<IIIHHh", 0, 2, dh, dw, 1, 1) + bytes(14) + struct.pack("<H", 0) + struct.pack("<I", len(zmid)) + zmid)
         out.append((f"bomb-large-decl-tileset/{dw}x{dh}", mk_header(1, 4, 4) + mk_frame([tsb, mk_layer()])))
+    # a tilemap bomb whose tile count is just past a power of two (growth by doubling at its worst)
+    zt = zlib.compress(bytes((4096 * 4096 + 1) * 4), 9)
+    ts1 = mk_chunk(0x2023, struct.pack("<IIIHHh", 0, 2 | 4, 1, 1, 1, 1) + bytes(14) + struct.pack("<H", 0)
+                   + struct.pack("<I", len(zlib.compress(bytes(4)))) + zlib.compress(bytes(4)))
+    lt = mk_chunk(0x2004, struct.pack("<HHHHHHBBH", 1, 2, 0, 0, 0, 0, 255, 0, 0) + struct.pack("<H", 1) + b"T" + struct.pack("<I", 0))
+    ct = mk_chunk(0x2005, struct.pack("<HhhBH", 0, 0, 0, 255, 3) + bytes(7)
+                  + struct.pack("<HHHIIII", 24929, 673, 32, 0x1fffffff, 0x20000000, 0x40000000, 0x80000000) + bytes(10)
+                  + zlib.compress(bytes(24929 * 673 * 4), 9))
+    out.append(("bomb-tilemap/24929x673", mk_header(1, 4, 4) + mk_frame([ts1, lt, ct])))
+    # user data chunks with the properties flag (4) and a declared properties size far beyond the chunk
+    for fl in (4, 5, 7):
+        for sz in (0x10000000, 0xFFFFFFFF, 0x7FFFFFFF):
+            body = struct.pack("<I", fl) + (struct.pack("<H", 1) + b"t" if fl & 1 else b"") + (bytes([1, 2, 3, 255]) if fl & 2 else b"") \
+                + struct.pack("<II", sz, 1) + bytes(6)
+            out.append((f"ud-properties/{fl}/{sz:x}", mk_header(1, 4, 4) + mk_frame([mk_layer(), mk_chunk(0x2020, body)])))
     # tilesets without embedded pixels whose declared size is large (nothing may be reserved for them)
     for flags in (1, 5, 0, 4):
         for cnt, tw, th in ((1 << 20, 8, 8), (0xFFFFFFFF, 1, 1), (65536, 256, 256), (1 << 24, 2, 2)):
@@ -1672,11 +1770,13 @@ def c12_run(ctx, scale):
             uniq.append((cid, b))
     files = uniq
     reqs = [f"ALLOC {cid} {b.hex() or '-'}" for cid, b in files]
-    impl, _ = vlib.run_impl(reqs, "release", timeout=1200)
     model, _ = vlib.run_model(reqs, timeout=1200)
     res.sections = ["alloc"]
     worst = (0, None)
-    for cid, data in files:
+    impls = {"release": vlib.run_impl(reqs, "release", timeout=1200)[0],
+             "relchk": vlib.run_impl(reqs, "relchk", timeout=1200)[0]}
+    for profile, cid, data in [(p_, c_, d_) for p_ in ("release", "relchk") for c_, d_ in files]:
+        impl = impls[profile]
         res.evaluations += 1
         res.compared += 1
         res._distinct.add(hash(data))
@@ -1690,7 +1790,7 @@ def c12_run(ctx, scale):
             detail = " ".join(il)[-300:]
             res.oracle_failures.append({"id": cid, "what": "loading aborted the process / exceeded the allocation guard: " + detail,
                                         "input_hex": data.hex() if len(data) < 300000 else data[:2000].hex() + "...",
-                                        "call": "AsepriteFile::read under the counting allocator"})
+                                        "call": "AsepriteFile::read under the counting allocator", "build_profile": profile})
             continue
         kv = dict(x.split("=") for x in line.split(" ")[1:])
         peak = int(kv["peak"])
@@ -1703,7 +1803,7 @@ def c12_run(ctx, scale):
         if peak > bound:
             res.oracle_failures.append({"id": cid, "what": f"peak live heap {peak} exceeds 64 MiB + 8192 x {len(data)} = {bound}",
                                         "input_hex": data.hex() if len(data) < 300000 else data[:2000].hex() + "...",
-                                        "largest_request": int(kv["largest"]),
+                                        "largest_request": int(kv["largest"]), "build_profile": profile,
                                         "call": "AsepriteFile::read under the counting allocator"})
             continue
         if mline is None:
@@ -1718,7 +1818,7 @@ def c12_run(ctx, scale):
     return res
 
 
-register("C12", c12_run)
+register("C12", c12_run, profiles=("release", "relchk"))
 
 
 # ------------------------------------------------------------------------------------------
@@ -1814,6 +1914,21 @@ def c07_run(ctx, scale):
                       spec_backed="C01.decode_encode + C07.encoding_choices_irrelevant")
         files += solid
         impl.update(is_)
+    if scale == 1:
+        import zlib
+        w2, h2 = 2048, 2049
+        px2 = bytes([90, 40, 200, 255]) * (w2 * h2)
+        pair = []
+        for tag, body, ctype in (("raw", px2, 0), ("z6", zlib.compress(px2, 6), 2)):
+            cel = mk_chunk(0x2005, struct.pack("<HhhBH", 0, -3, -2000, 255, ctype) + bytes(7) + struct.pack("<HH", w2, h2) + body)
+            pair.append((f"huge/2048x2049-{tag}", mk_header(1, 5, 60) + mk_frame([mk_layer(), cel])))
+        po, _ = vlib.run_impl(vlib.load_lines(pair), timeout=600)
+        a_, b_ = po.get(pair[0][0]), po.get(pair[1][0])
+        res.evaluations += 2
+        if vlib.outcome(a_ or []) != "ok" or a_ != b_:
+            res.oracle_failures.append({"id": pair[0][0], "input_hex": pair[1][1].hex(), "call": "a 2048x2049 RGBA cel stored raw (16.8 MB chunk) and zlib-compressed",
+                                        "what": "raw and zlib storage of the same cel are observed differently: "
+                                                + str(vlib.first_diff(b_ or [], a_ or []))[:300]})
     groups = {}
     for cid, b in files:
         groups.setdefault(cid.rsplit("-", 1)[0], []).append((cid, b))
@@ -2206,6 +2321,12 @@ def c16_run(ctx, scale):
         for prof, o in (("release", a), ("relchk", b)):
             if o is None:
                 raise vlib.Broken("no observation for " + cid)
+            mx = [l for l in o if l.startswith("mapperx ")]
+            if mx and "|" in mx[0]:
+                tl = [x for x in mx[0].split("|", 1)[1].strip().split(",") if x]
+                if any(x != "0" for x in tl):
+                    fail = (f"[{prof}] PaletteMapper::lookup of a translucent colour right after the opaque lookup of the same colour "
+                            f"returns {tl[:12]} instead of the transparent index 0")
             diff = [l for l in o if l.startswith("differs") or "PANIC" in l or l == "load panic"]
             if diff:
                 fail = f"[{prof}] observation not stable / panicked: {diff[0][:200]}"
